@@ -53,7 +53,7 @@ def destinations():
     from hypothesis import strategies as st
     base = st.sampled_from(['https://sp.example.org/acs', 'https://idp.example.org:8443/sso/redirect', 'http://localhost/a/b'])
     # '?sls' / '?acs&x=1': value-less parameters, as PHP toolkits register their endpoints
-    q = st.one_of(st.just(''), st.sampled_from(['?x=1', '?x=1&y=2', '?a=b%20c', '?SAMLRequest=old', '?k=', '?sls', '?acs&x=1']))
+    q = st.one_of(st.just(''), st.sampled_from(['?x=1', '?x=1&y=2', '?a=b%20c', '?SAMLRequest=old', '?k=', '?sls', '?acs&x=1', '?']))
     return st.tuples(base, q).map(lambda t: t[0] + t[1])
 
 
@@ -103,7 +103,7 @@ def lib_messages():
     """messages built by the library's own classes with generated text content"""
     from hypothesis import strategies as st
     t = xml_texts()
-    return st.tuples(st.integers(0, 12), t, t, st.booleans(), st.booleans())
+    return st.tuples(st.integers(0, 13), t, t, st.booleans(), st.booleans())
 
 
 def _lib_message(kind, t1, t2, signed, empties=False):
@@ -158,13 +158,16 @@ def _lib_message(kind, t1, t2, signed, empties=False):
         return samlp.ArtifactResponse(in_response_to=t1, status=ok, **common)
     if kind == 11:
         return samlp.ManageNameIDResponse(in_response_to=t1, status=ok, **common)
-    return samlp.NameIDMappingResponse(in_response_to=t1, status=ok, name_id=saml.NameID(text=t2), **common)
+    if kind == 12:
+        return samlp.NameIDMappingResponse(in_response_to=t1, status=ok, name_id=saml.NameID(text=t2), **common)
+    return samlp.AuthzDecisionQuery(subject=saml.Subject(name_id=saml.NameID(text=t1)), resource='urn:resource:' + re.sub(r'[^A-Za-z0-9]', 'x', t2),
+                                    action=[saml.Action(namespace=saml.NAMESPACE, text='Read')], **common)
 
 
 # message type names the receiving entity uses to pick the SOAP decoder (the msgtype attributes of saml2_tophat.request / .response)
-MSGTYPES = {0: ['authn_request'], 1: ['logout_request'], 2: ['response', 'attribute_response', 'authn_query_response', 'assertion_id_response'], 3: ['attribute_query'],
+MSGTYPES = {0: ['authn_request'], 1: ['logout_request'], 2: ['response', 'attribute_response', 'authn_query_response', 'assertion_id_response', 'authz_decision_response'], 3: ['attribute_query'],
             4: ['logout_response', 'response'], 5: ['manage_name_id_request'], 6: ['name_id_mapping_request'], 7: ['assertion_id_request'], 8: ['authn_query'],
-            9: ['artifact_resolve'], 10: ['artifact_response'], 11: ['manage_name_id_response'], 12: ['name_id_mapping_response']}
+            9: ['artifact_resolve'], 10: ['artifact_response'], 11: ['manage_name_id_response'], 12: ['name_id_mapping_response'], 13: ['authz_decision_query']}
 
 
 def message_strategy(xml_only=False):
@@ -213,7 +216,18 @@ def _message(m):
 def case_strategy(xml_only=False):
     from hypothesis import strategies as st
     return st.fixed_dictionaries({'msg': message_strategy(xml_only), 'rs': relay_states(), 'dest': destinations(),
-                                  'typ': st.sampled_from(['SAMLRequest', 'SAMLResponse']), 'via': st.sampled_from(['pack', 'entity', 'obj'])})
+                                  'typ': st.sampled_from(['SAMLRequest', 'SAMLResponse']), 'via': st.sampled_from(['pack', 'entity', 'obj']),
+                                  # the payload handed over as octets (the UTF-8 form of the message, or arbitrary octets: 'raw' is their base64 form) instead of text
+                                  'as_bytes': st.sampled_from([False, False, False, True]),
+                                  'raw': st.one_of(st.none(), st.none(), st.binary(min_size=1, max_size=120).map(lambda b: base64.b64encode(b).decode('ascii')))})
+
+
+def _payload(case, msg):
+    """(argument for the packaging function, octets the receiver must get back)"""
+    if case['via'] == 'pack' and case.get('as_bytes'):
+        octets = base64.b64decode(case['raw']) if case.get('raw') else msg.encode('utf-8')
+        return octets, octets
+    return msg, msg.encode('utf-8')
 
 
 # ---------------------------------------------------------------- oracles
@@ -228,7 +242,10 @@ def run_redirect(case):
     elif case['via'] == 'obj':
         info = pack.http_redirect_message(_lib_message(*case['msg'][1]), dest, rs, typ)
     else:
-        info = pack.http_redirect_message(msg, dest, rs, typ)
+        arg, want = _payload(case, msg)
+        info = pack.http_redirect_message(arg, dest, rs, typ)
+    if not (case['via'] == 'pack' and case.get('as_bytes')):
+        want = msg.encode('utf-8')
     hdrs = [v for k, v in info['headers'] if k == 'Location']
     if len(hdrs) != 1:
         raise Violation('redirect-headers', 'expected one Location header, got %r' % (info['headers'],))
@@ -258,11 +275,11 @@ def run_redirect(case):
         raw = zlib.decompress(base64.b64decode(d[typ], validate=True), -15)
     except Exception as e:
         raise Violation('redirect-payload', 'payload does not inflate: %r' % (e,))
-    if raw != msg.encode('utf-8'):
-        raise Violation('redirect-message', 'message changed: %r -> %r' % (msg[:80], raw[:80]))
+    if raw != want:
+        raise Violation('redirect-message', 'message changed: %r -> %r' % (want[:80], raw[:80]))
     back = Entity.unravel(d[typ], BINDING_HTTP_REDIRECT)
-    if back != msg.encode('utf-8'):
-        raise Violation('redirect-unravel', 'unravel gives %r for %r' % (back[:80], msg[:80]))
+    if back != want:
+        raise Violation('redirect-unravel', 'unravel gives %r for %r' % (back[:80], want[:80]))
     sp = _special(rs) or (case['msg'][0] != 'lib' and _special(msg))
     return ('redirect|' + case['msg'][0] + '|' + ('special' if sp else 'plain') + ('|destquery' if pre else '')), sp or bool(pre)
 
@@ -298,7 +315,10 @@ def run_post(case):
     elif case['via'] == 'obj':
         info = pack.http_form_post_message(_lib_message(*case['msg'][1]), dest, rs, typ)
     else:
-        info = pack.http_form_post_message(msg, dest, rs, typ)
+        arg, want = _payload(case, msg)
+        info = pack.http_form_post_message(arg, dest, rs, typ)
+    if not (case['via'] == 'pack' and case.get('as_bytes')):
+        want = msg.encode('utf-8')
     p = P()
     p.feed(info['data'])
     p.close()
@@ -322,14 +342,14 @@ def run_post(case):
         raw = base64.b64decode(vals[typ], validate=True)
     except Exception as e:
         raise Violation('post-payload', 'message field is not base64: %r' % (e,))
-    if raw != msg.encode('utf-8'):
-        raise Violation('post-message', 'message changed: %r -> %r' % (msg[:80], raw[:80]))
+    if raw != want:
+        raise Violation('post-message', 'message changed: %r -> %r' % (want[:80], raw[:80]))
     if rs and _norm_nl(vals['RelayState']) != _norm_nl(rs):
         raise Violation('post-relaystate', 'RelayState %r read back as %r' % (rs[:80], vals['RelayState'][:80]))
     if dict(p.forms[0]).get('action') != dest or dict(p.forms[0]).get('method') != 'post':
         raise Violation('post-action', 'form attributes %r' % (p.forms[0],))
     back = Entity.unravel(vals[typ], BINDING_HTTP_POST)
-    if back != msg.encode('utf-8'):
+    if back != want:
         raise Violation('post-unravel', 'unravel gives %r' % (back[:80],))
     sp = _special(rs) or (case['msg'][0] != 'lib' and _special(msg))
     return ('post|' + case['msg'][0] + '|' + ('special' if sp else 'plain')), sp
